@@ -136,6 +136,17 @@ class World:
                 stg.set_value(v, 1.0)
             if here and f == "set_value_on_foreign":
                 stg.set_value(foreign, 1.0)
+            if here and f == "set_value_on_quad_state":
+                q = stg.state(quad=True)
+                (stg.set_next if self.discrete else stg.set_der)(q, ca.sumsqr(u))
+                stg.add_objective(stg.at_tf(q))
+                stg.set_value(q, 1.0)
+            if here and f == "set_value_on_control":
+                stg.set_value(u, 1.0)
+            if here and f == "set_value_on_bspline_variable":
+                vb = stg.variable(grid="bspline", order=1)
+                stg.add_objective(stg.at_tf(vb) ** 2)
+                stg.set_value(vb, 1.0)
             if here and f == "set_initial_on_parameter":
                 stg.set_initial(pg, 1.0)
             if here and f == "set_initial_on_foreign":
@@ -165,7 +176,7 @@ def catalogue(method, discrete):
                 continue
             out.append(("missing_value", {"stage": s, "param": kind}))
         out.append(("no_method", {"stage": s}))
-        for f in ("signal_objective", "nonscalar_objective", "set_value_on_state", "set_value_on_variable", "set_value_on_foreign", "set_initial_on_parameter", "set_initial_on_foreign",
+        for f in ("signal_objective", "nonscalar_objective", "set_value_on_state", "set_value_on_variable", "set_value_on_foreign", "set_value_on_quad_state", "set_value_on_control", "set_value_on_bspline_variable", "set_initial_on_parameter", "set_initial_on_foreign",
                   "unknown_grid_subject_to", "unknown_grid_subject_to_boundary", "unknown_grid_integral", "unknown_grid_variable", "unknown_grid_parameter", "unknown_grid_sample",
                   "foreign_in_ode", "foreign_in_constraint", "foreign_in_objective", "constant_false_constraint", "false_horizon_relation", "false_horizon_relation_T"):
             out.append((f, {"stage": s}))
